@@ -60,3 +60,23 @@ package markdown
 //@   requires w != nil && r != nil && r.URL != nil && md.Next != nil && forall(k, 0, len(md.Configs), md.Configs[k] != nil)
 //@ func execTemplate$1
 //@   requires c != nil && c.Template != nil && forallT(n, string, has(c.TemplateFiles, n) ==> c.TemplateFiles[n] != nil)
+
+//@ unit setup_registers frames=on props=C11,C09 nilchecks=on filter=`markdown\.setup$`
+//@ // Every run of this directive's setup (casket runs it once per address of a server block) parses the directive's tokens
+//@ // ITSELF and, when that succeeds, registers exactly one handler for the site - after parsing, so the handler is built from
+//@ // what this very run read; a run whose parse fails registers nothing
+//@ use @verif/specs/stdlib.spec:casket_api
+//@ ghost parsedNow int
+//@ ghost registered int
+//@ func markdownParse
+//@   requires c != nil
+//@   modifies ghost:parsedNow
+//@   ensures parsedNow == old(parsedNow) + 1
+//@ extern (*github.com/tmpim/casket/caskethttp/httpserver.SiteConfig).AddMiddleware
+//@   modifies ghost:registered
+//@   ensures registered == old(registered) + 1
+//@ func setup
+//@   requires c != nil && parsedNow == 0 && registered == 0
+//@   modifies ghost:parsedNow, ghost:registered
+//@   at call (*github.com/tmpim/casket/caskethttp/httpserver.SiteConfig).AddMiddleware before [registered_after_this_runs_own_parse] parsedNow == 1
+//@   ensures [one_handler_on_success_none_on_error] parsedNow == 1 && (result == nil ==> registered == 1) && (result != nil ==> registered == 0)
